@@ -96,25 +96,29 @@ def _propka_stub(pkas):
         for ln in lines:
             if not ln.startswith(("ATOM", "HETATM")):
                 continue
-            key = (ln[21], int(ln[22:26]), ln[17:20].strip())
+            key = (ln[21], int(ln[22:26]), ln[17:20].strip(), ln[26])
             if key not in residues:
                 residues.append(key)
         rows = []
 
-        def row(chain, num, resname, rtype, pka):
-            rows.append({"res_num": num, "ins_code": " ", "res_name": resname, "chain_id": chain, "group_label": f"{rtype:<3s}{num:>4d}{chain:>2s}", "group_type": rtype, "pKa": pka, "model_pKa": 0.0, "buried": 0.0, "coupled_group": None})
+        def row(chain, num, resname, rtype, pka, icode=" "):
+            rows.append({"res_num": num, "ins_code": icode, "res_name": resname, "chain_id": chain, "group_label": f"{rtype:<3s}{num:>4d}{chain:>2s}", "group_type": rtype, "pKa": pka, "model_pKa": 0.0, "buried": 0.0, "coupled_group": None})
 
         chains = []
-        for ch, _n, _r in residues:
+        for ch, _n, _r, _i in residues:
             if ch not in chains:
                 chains.append(ch)
+        ngroup = 0
         for ch in chains:
             rs = [r for r in residues if r[0] == ch]
-            row(ch, rs[0][1], rs[0][2], "N+", pkas["N+"])
-            for c, n, r in rs:
+            row(ch, rs[0][1], rs[0][2], "N+", pkas["N+"], rs[0][3])
+            for c, n, r, ic in rs:
                 if r in GROUPS:
-                    row(c, n, r, r, pkas["group"])
-            row(ch, rs[-1][1], rs[-1][2], "C-", pkas["C-"])
+                    # each titratable residue has its own pKa when the harness provides several
+                    pk = pkas.get(f"group{ngroup}", pkas["group"])
+                    ngroup += 1
+                    row(c, n, r, r, pk, ic)
+            row(ch, rs[-1][1], rs[-1][2], "C-", pkas["C-"], rs[-1][3])
         return rows, ""
 
     return run_propka
@@ -149,7 +153,7 @@ def _reference(ff, seq, idx, patch, ffout=None):
     return out
 
 
-def h_titration(eng, ff, ffout, group, position, keep_chain=True):
+def h_titration(eng, ff, ffout, group, position, keep_chain=True, start=1):
     from pdb2pqr import biomolecule as biomol
     from pdb2pqr import main
 
@@ -157,7 +161,7 @@ def h_titration(eng, ff, ffout, group, position, keep_chain=True):
     idx = POS[position]
     ph = eng.real("ph", 0, 14)
     pkas = {"group": eng.real("pka"), "N+": eng.real("pka_n"), "C-": eng.real("pka_c")}
-    bm, defn = fixtures.prepared(fixtures.peptide_lines(seq))
+    bm, defn = fixtures.prepared(fixtures.peptide_lines(seq, start=start))
     cap = _Capture()
     lg = logging.getLogger("pdb2pqr")
     old_level = lg.level
@@ -270,6 +274,42 @@ def h_split_chain(eng, ff):
     eng.check(And(Implies(below, lys_prot), Implies(Not(below), not lys_prot)), "split-chain-second-peptide", note=f"LYS in the split-off second peptide (chains {[c.chain_id for c in bm.chains]}): protonated={lys_prot}; its pKa row was not applied")
 
 
+def h_same_number(eng, ff, variant):
+    """two titratable residues that share residue number (insertion code) or differ only in chain:
+    each must follow ITS OWN pKa"""
+    from pdb2pqr import main
+
+    if variant == "insertion-code":
+        lines = fixtures.peptide_lines(["ALA", "ASP", "ASP", "ALA"], "A", 19, ter=False)
+        # renumber: 19, 20, 20A, 21
+        out = []
+        for ln in lines:
+            num = int(ln[22:26])
+            if num == 21:
+                ln = ln[:22] + f"{20:>4d}A" + ln[27:]
+            elif num == 22:
+                ln = ln[:22] + f"{21:>4d} " + ln[27:]
+            out.append(ln)
+        lines = out + ["TER"]
+    else:  # same number in two chains
+        lines = fixtures.peptide_lines(["ALA", "ASP", "ALA"], "A", 19) + fixtures.peptide_lines(["ALA", "ASP", "ALA"], "B", 19, origin=(0.0, 20.0, 0.0), serial0=200)
+    ph = eng.real("ph", 0, 14)
+    pkas = {"group": eng.real("pka"), "group0": eng.real("pka_first"), "group1": eng.real("pka_second"), "N+": eng.real("pka_n"), "C-": eng.real("pka_c")}
+    bm, defn = fixtures.prepared(lines)
+    with patched((main, "run_propka", _propka_stub(pkas))):
+        try:
+            main.non_trivial(_args(ff, None, ph), bm, None, defn, False)
+        except ValueError as e:
+            eng.check(False, "run-succeeds", note=f"non_trivial raised ValueError: {str(e)[:200]}")
+            return
+    asps = [r for r in bm.residues if r.name == "ASP"]
+    eng.note(f"{[(str(r), r.has_atom('HD2')) for r in asps]}")
+    for r, pk, tag in zip(asps, (pkas["group0"], pkas["group1"]), ("first", "second")):
+        prot = r.has_atom("HD2")
+        below = ph < pk
+        eng.check(And(Implies(below, prot), Implies(Not(below), not prot)), f"{tag}-follows-its-own-pka", note=f"{variant}: {r} protonated={prot}: it does not follow the pKa PROPKA reported for it")
+
+
 def obligations(tier):
     obs = []
     for ff in FFS:
@@ -288,6 +328,11 @@ def obligations(tier):
                 obs.append(Obligation(f"monotone-{ff}-{group}-{position}", h_monotone, dict(ff=ff, group=group, position=position), group="monotone", time_cap=900))
     for ff in ("parse",) if tier == "quick" else ("parse", "amber", "swanson"):
         obs.append(Obligation(f"split-chain-{ff}", h_split_chain, dict(ff=ff), group="split-chain", time_cap=900))
+        for start in (998, 9997, -101, -999):
+            for group in ("GLU", "LYS"):
+                obs.append(Obligation(f"numbering-{ff}-{group}-start{start}", h_titration, dict(ff=ff, ffout=None, group=group, position="internal", start=start), group="titration", time_cap=900))
+        for variant in ("insertion-code", "two-chains"):
+            obs.append(Obligation(f"same-number-{variant}-{ff}", h_same_number, dict(ff=ff, variant=variant), group="same-number", time_cap=900))
     return obs
 
 
@@ -312,7 +357,7 @@ META = dict(
     ],
     outside=[
         "PROPKA's own pKa values and its choice of which groups it reports (coupled groups, ligands)",
-        "residue numbers beyond 1..13 and other chain identifiers in the lookup keys (concrete here)",
+        "residue numbers other than 1-3, 998-1000, 9997-9999, -101..-99, -999..-997 and chain identifiers other than A/B in the lookup keys (numbers are enumerated, not symbolic)",
         "interactions between several titratable side chains in one structure",
     ],
     assumptions=["PROPKA reports one row per ASP/GLU/HIS/CYS/TYR/LYS/ARG residue and one N+/C- row per chain, labelled '{type:<3s}{num:>4d}{chain:>2s}' (propka/group.py)"],
